@@ -595,8 +595,13 @@ def oracle_c06(case, ir):
         if not _close(r["u"], expect_u) if not isinstance(r["u"], str) else True:
             return {"what": f"{key}: returned u={r['u']}, required {'2/(2 - v/u_assorter)' if comp else 'u_assorter'} = {expect_u}"}
         for j, x in enumerate(r["d"]):
-            if isinstance(x, str) or not (-TOL <= x <= r["u"] * (1 + TOL) + TOL):
-                return {"what": f"{key}: d[{j}]={x} outside [0, u={r['u']}]"}
+            # exact comparison: the library's own wald_sprt raises ValueError for a datum above u by one ulp
+            # (`if any(xx < 0 or xx > u)`), and (1 - o/u_a)/(2 - v/u_a) <= 2/(2 - v/u_a) holds exactly in floating
+            # point (same divisor, numerator <= 2)
+            if isinstance(x, str) or not (0 <= x <= r["u"]):
+                return {"what": f"{key}: d[{j}]={x!r} outside [0, u={r['u']!r}]"
+                                + ("" if not (-TOL <= x <= r["u"] * (1 + TOL) + TOL) else
+                                   " (by rounding only: still rejected as out of range by NonnegMean.wald_sprt)")}
         # which pairs contribute
         if comp:
             if us:
